@@ -245,7 +245,10 @@ def run_case_inner(case):
         with owned_random(('c16', case['it'], case.get('pad'), case['subj'])):
             if case.get('reuse'):
                 signer.key_locator_name = '/earlier/use/KEY/%09'
-                sv2.derive_cert(list(names['ident1-id0']), 'first', pub, signer, dt.datetime(2020, 1, 1), 60)
+                try:
+                    sv2.derive_cert(list(names['ident1-id0']), 'first', pub, signer, dt.datetime(2020, 1, 1), 60)
+                except Exception as e:  # noqa
+                    return [(f'C16|derive|raises:{type(e).__name__}@{tb_where(e)}', f'{e!r}; first certificate of case {case}')], None
                 signer.key_locator_name = loc
             if case['f'] == 'derive':
                 ids = dict(ISSUER_IDS)
